@@ -194,14 +194,24 @@ func init() {
 				}
 			}
 			c.Check(regexp.MustCompile(`^state\.lastStoredHeightFor\(height, state\.loadValidatorsInfo\(store\.db, height\)#0\.LastHeightChanged\)$`).MatchString(lastStored), fk+" :: falls back to the last stored full set", w.pos(f.Pos()), lastStored, "second lookup is at "+lastStored)
+			// The chain rotates the proposer with IncrementProposerPriority(1) once per height (rescaling and
+			// centring the priorities every time); one call with a larger argument rescales and centres only
+			// once and yields different priorities — and a different proposer — after the set has changed (F39).
+			// The reader therefore replays the distance one height at a time.
 			for _, inc := range w.callsTo(f, "types#ValidatorSet.IncrementProposerPriority") {
-				got := w.expr(callArgs(inc)[0])
+				k, isK := constInt(callArgs(inc)[0])
+				c.Check(isK && k == 1, fk+" :: priorities advanced one height at a time, as the chain advanced them", w.ipos(inc), "IncrementProposerPriority(1) per height", "priorities are advanced by "+w.expr(callArgs(inc)[0])+" in one call; the chain advanced them by 1 per height, which gives different priorities once the set has changed")
+				trips, ok := unitLoopTrips(w, inc)
 				want := "libs/math.SafeConvertInt32((height - " + lastStored + "))"
-				c.Check(got == want, fk+" :: priorities advanced by (height - height of the set that was loaded)", w.ipos(inc), want, "priorities are advanced by "+got+", not by the distance from the loaded set at "+lastStored)
+				want64 := "(height - " + lastStored + ")"
+				if !ok {
+					trips = "not a counted loop the analysis recognises"
+				}
+				c.Check(ok && (trips == want || trips == want64), fk+" :: priorities advanced by (height - height of the set that was loaded)", w.ipos(inc), want+" iterations", "the rotation is replayed "+trips+" times, not the distance from the loaded set at "+lastStored)
 				recv := w.expr(callRecv(inc))
 				c.Check(strings.Contains(recv, "loadValidatorsInfo(store.db, "+lastStored+")#0.ValidatorSet"), fk+" :: the advanced set is the one loaded from the last stored height", w.ipos(inc), recv, "advanced set is "+recv)
 			}
-			c.Check(len(w.callsTo(f, "types#ValidatorSet.IncrementProposerPriority")) == 1, fk+" :: advances priorities once", w.pos(f.Pos()), "one IncrementProposerPriority", "unexpected number of IncrementProposerPriority calls")
+			c.Check(len(w.callsTo(f, "types#ValidatorSet.IncrementProposerPriority")) == 1, fk+" :: advances priorities once", w.pos(f.Pos()), "one IncrementProposerPriority site", "unexpected number of IncrementProposerPriority calls")
 		}
 		// Store.save writes NextValidators under nextHeight+1 with the last-changed height
 		if f := c.fn("state", "dbStore.save"); f != nil {
